@@ -418,6 +418,21 @@ class LayoutPlugin(Plugin):
                         run = ""
                 return hit or (x in run)
             raise Unsupported("substring test on a layout string")
+        if isinstance(c, str) and isinstance(x, LStr):
+            # the FIRST character of a printed number tested against a constant character set (A-STR: a number is printed
+            # with '-' iff it is negative, otherwise it starts with a digit - never with '+', never with '.')
+            if all(isinstance(sg, Lit) for sg in x.segs):
+                return "".join(sg.text for sg in x.segs) in c
+            if len(x.segs) == 1 and isinstance(x.segs[0], TokS) and x.segs[0].tok.kind in ("int", "fixed"):
+                sg = x.segs[0]
+                at0 = self.entailed(sym.num_cmp("==", sg.off, 0))
+                one = self.entailed(sym.num_cmp("==", sg.len, 1))
+                if at0 is True and one is True:
+                    digits = [d in c for d in "0123456789"]
+                    if all(digits) or not any(digits):
+                        neg = sg.tok.neg if sg.tok.neg is not None else sym.num_cmp("<", sg.tok.value, 0)
+                        return sym.b_or(sym.b_and(neg, "-" in c), sym.b_and(sym.b_not(neg), all(digits)))
+            raise Unsupported(f"character-set test on a layout string {x!r}")
         return NotImplemented
 
     # ---------------------------------------------------------------- slicing
